@@ -313,6 +313,9 @@ var c02Templates = []diffTmpl{
 	// method names beyond the RK constant range
 	{c02ManyConsts(260) + "local o = {k = x}; function o:get(d) return self.k + d end; local function mk() return o end; emit(mk():get(y), o:get(z), mk().get(mk(), 1))", "num"},
 	{c02ManyConsts(255) + "local o = {k = x}; function o:get(d) return self.k + d end; local function mk() return o end; emit(mk():get(y), o:get(z))", "num"},
+	// parenthesised varargs in assignments
+	{"local function f(...) local a; g, a = 1, (...); emit(g, a); local b, c; b, c = 2, (...); emit(b, c); local t = {}; t.k, a = a, (...); emit(t.k, a) end; f(x, y); f()", "num"},
+	{"local function f(...) local a, b, c = (...), ...; emit(a, b, c); a, b, c = ..., (...); emit(a, b, c); a = (...); emit(a) end; f(x, y, z)", "num"},
 	// the compatibility arg table
 	{"local function f(a, b, ...) return arg end; local r = f(x, y, z, 1); emit(type(r), r.n, r[1], r[2]); local function g() return f(x, y, z) end; local q = g(); emit(type(q), q.n, q[1])", "num"},
 	{"local function f(...) return arg.n, arg[1], arg[3] end; emit(f()); emit(f(x)); emit(f(x, nil, z))", "num"},
@@ -323,7 +326,7 @@ var c02Templates = []diffTmpl{
 
 // C02.tmpl — call and return adjustment, whole pipeline against R-lua.
 //
-//verif:harness prop=C02 tier=quick bounds="33 call templates: 0..3 fixed parameters x vararg x 0..4 arguments x result contexts (statement, parenthesised, middle, last in argument list / return / constructor / assignment), Lua and Go callees, method sugar, __call, tail calls incl. depth 60 > CallStackSize 32; inputs 3 symbolic float64 (or 32-bit ints)"
+//verif:harness prop=C02 tier=quick bounds="35 call templates: 0..3 fixed parameters x vararg x 0..4 arguments x result contexts (statement, parenthesised, middle, last in argument list / return / constructor / assignment), Lua and Go callees, method sugar, __call, tail calls incl. depth 60 > CallStackSize 32; inputs 3 symbolic float64 (or 32-bit ints)"
 func H_C02_tmpl() {
 	t := c02Templates[VChoice(len(c02Templates))]
 	diffRun(t.src, t.src, c01Inputs(t.kind), Options{CallStackSize: 32})
@@ -415,12 +418,13 @@ var c05Templates = []diffTmpl{
 	{"local n = 0; local function f() n = n + 1; if n < 3 then error(n) end; return n + x end; local r; repeat local ok, v = pcall(f); r = v until ok; emit(r, n)", "int"},
 	{"local a, b = x, y; local function seta(v) a = v end; local function getb() return b end; pcall(error, 'e'); local function setb(v) b = v end; setb(z); seta(1); emit(a, b, getb())", "num"},
 	{"local ok, e = pcall(error, '100%', 0); emit(ok, e); local ok2, e2 = pcall(function() error('rate=%d items %s', 0) end); emit(ok2, e2); emit(select(2, pcall(error, '%%', 0)))", "num"},
+	{"emit(pcall(error, 'x', 100)); emit(coroutine == nil); local ok, e = pcall(error, 'lvl0', 0); emit(ok, e)", "num"},
 	{"local function lvl() error({v = x}) end; local ok, e = pcall(function() lvl() end); emit(ok, e.v)", "num"},
 }
 
 // C05.tmpl — errors contained by protected calls, whole pipeline against R-lua.
 //
-//verif:harness prop=C05 tier=quick bounds="19 error templates: error values of every type, faults, nested pcall, errors inside metamethods and iterators, retry loops, side effects before/after; inputs symbolic"
+//verif:harness prop=C05 tier=quick bounds="20 error templates: error values of every type, faults, nested pcall, errors inside metamethods and iterators, retry loops, side effects before/after; inputs symbolic"
 func H_C05_tmpl() {
 	t := c05Templates[VChoice(len(c05Templates))]
 	diffRun(t.src, t.src, c01Inputs(t.kind), Options{})
